@@ -220,6 +220,60 @@ def zipBytes (a b : Bytes) : List (Nat × Nat) := List.zipWith (fun x y => (x.to
 def bytesOfE (l : List Int) : Except Err Bytes :=
   if l.all (fun v => decide (0 ≤ v ∧ v < 256)) then .ok (l.map fun v => UInt8.ofNat v.toNat) else .error .value
 
+/-- `n * x` for a str / bytes `x`: `n ≤ 0` gives the empty sequence -/
+def repeatSeq {α : Type} (n : Int) (x : List α) : List α := (List.replicate n.toNat x).flatten
+
+/-- `s[i]` on a str (code points): the one-character string -/
+def strItemE (s : List Nat) (i : Int) : Except Err (List Nat) :=
+  let j := if i < 0 then i + s.length else i
+  if j < 0 then .error .index
+  else match s[j.toNat]? with
+    | none => .error .index
+    | some c => .ok [c]
+
+/-- the UTF-8 bytes of one code point; `none`: a surrogate or a value beyond U+10FFFF (no Python str holds the latter) -/
+def utf8One (c : Nat) : Option Bytes :=
+  if c < 0x80 then some [UInt8.ofNat c]
+  else if c < 0x800 then some [UInt8.ofNat (0xC0 ||| (c >>> 6)), UInt8.ofNat (0x80 ||| (c &&& 0x3F))]
+  else if 0xD800 ≤ c ∧ c < 0xE000 then none
+  else if c < 0x10000 then some [UInt8.ofNat (0xE0 ||| (c >>> 12)), UInt8.ofNat (0x80 ||| ((c >>> 6) &&& 0x3F)), UInt8.ofNat (0x80 ||| (c &&& 0x3F))]
+  else if c < 0x110000 then some [UInt8.ofNat (0xF0 ||| (c >>> 18)), UInt8.ofNat (0x80 ||| ((c >>> 12) &&& 0x3F)),
+                                  UInt8.ofNat (0x80 ||| ((c >>> 6) &&& 0x3F)), UInt8.ofNat (0x80 ||| (c &&& 0x3F))]
+  else none
+
+/-- `bytes(s, 'utf-8')`: UnicodeEncodeError (a ValueError) on a surrogate -/
+def utf8E : List Nat → Except Err Bytes
+  | [] => .ok []
+  | c :: r =>
+    match utf8One c, utf8E r with
+    | some b, .ok rest => .ok (b ++ rest)
+    | _, _ => .error .value
+
+/-- a hash / HMAC object of `cryptography`: what `finalize()` computes from the bytes the `update()` calls appended -/
+structure Acc where
+  fin : Bytes → Bytes
+  buf : Bytes
+
+def Acc.update (a : Acc) (x : Bytes) : Acc := { a with buf := a.buf ++ x }
+def Acc.finalize (a : Acc) : Bytes := a.fin a.buf
+
+/-- `l[i]` on a list -/
+def listItemE {α : Type} (l : List α) (i : Int) : Except Err α :=
+  let j := if i < 0 then i + l.length else i
+  if j < 0 then .error .index
+  else match l[j.toNat]? with
+    | none => .error .index
+    | some a => .ok a
+
+/-- reading a local that no statement on the path has assigned: UnboundLocalError -/
+def unboundE {α : Type} (x : Option α) : Except Err α :=
+  match x with
+  | none => .error .unbound
+  | some a => .ok a
+
+@[simp] theorem unboundE_some {α : Type} (a : α) : unboundE (some a) = .ok a := rfl
+@[simp] theorem unboundE_none {α : Type} : unboundE (none : Option α) = .error .unbound := rfl
+
 /-! ### loops -/
 
 /-- `range(a, b)` -/
